@@ -296,6 +296,14 @@ theorem poisoned_before_release_all_wrappers (w : Gen.LeakDetector.ReleaseWrappe
   rw [release_wrappers_are_release w hw]
   exact poisoned_before_release c _ s inv n hn file line
 
+set_option maxRecDepth 100000 in
+/-- Every releasing overload — `operator delete` / `delete[]` plain, debug placement `(p, file, line)`, sized `(p, size_t)`,
+    nothrow placement `(p, std::nothrow)`, and `cpputest_free_location` — with the plain and with the thread-safe overloads
+    on, ends in the release wrapper of ITS family, and every acquiring overload in `allocMemory` with the current allocator
+    of its family: a `new[]` block released by any `delete[]` form is a correctly paired release (regenerated forwarding of
+    every operator, both function-pointer tables, every function's allocator). -/
+theorem overloads_release_with_their_family : overloadsWiredCorrectly = true := by decide
+
 /-- the constants the proofs rely on: three guard bytes `B A S`, poison `0xCD` -/
 theorem guard_constants :
     Gen.LeakDetector.guardSize = 3 ∧ guardPattern = [0x42, 0x41, 0x53] ∧ Gen.LeakDetector.poisonByte = 0xCD ∧
